@@ -169,7 +169,9 @@ class FakeSnowflakeCursor:
 
     def _transform(self, expression: exp.Expression) -> exp.Expression:
         return (
-            expression.transform(transforms.upper_case_unquoted_identifiers)
+            # IDENTIFIER('name') first: the name it holds folds to upper case like one written out, unless it is quoted
+            expression.transform(transforms.identifier)
+            .transform(transforms.upper_case_unquoted_identifiers)
             .transform(transforms.update_variables, variables=self._conn.variables)
             .transform(transforms.set_schema, current_database=self._conn.database)
             .transform(transforms.create_database, db_path=self._conn.db_path)
@@ -208,7 +210,6 @@ class FakeSnowflakeCursor:
             .transform(transforms.sample)
             .transform(transforms.array_size)
             .transform(transforms.random)
-            .transform(transforms.identifier)
             .transform(transforms.array_agg_within_group)
             .transform(transforms.array_agg)
             .transform(transforms.dateadd_date_cast)
